@@ -328,6 +328,11 @@ func genTxCase(r *rng, maxP int) J {
 			in["tz"] = r.pick2([]int{-720, -90, 60, 330, 840})
 		}
 	}
+	// strings the engine must carry as they are: NUL and other control / invisible characters in the reference and in metadata
+	// keys and values, and pairs of metadata keys that differ only by such a character (own rng: the rest of the case is unchanged)
+	if cr := r.fork(); cr.p(22) {
+		txControlStrings(cr, in, meta)
+	}
 	// malformed stream: one posting broken, or no posting at all
 	if r.p(15) {
 		k := r.n(len(posts))
@@ -357,6 +362,53 @@ func genTxCase(r *rng, maxP int) J {
 }
 
 func (r *rng) pick2(xs []int) int { return xs[r.n(len(xs))] }
+
+// characters a sanitiser might strip, fold or choke on (all of them are valid in a JSON string once escaped; lone surrogates are not
+// and are left out): NUL, C0 controls, DEL, NEL, no-break space, line / paragraph separator, BOM, zero-width space, tab, CR, LF
+var txControlChars = []string{"\x00", "\x00", "\x00", "\x01", "\x1f", "\x7f", "\u0085", "\u00a0", "\u2028", "\u2029", "\ufeff", "\u200b", "\t", "\r", "\n", "\x1b", "\x08"}
+
+func txSprinkle(r *rng, s string) string {
+	c := r.pick(txControlChars)
+	switch r.n(4) {
+	case 0:
+		return c + s
+	case 1:
+		return s + c
+	case 2:
+		return c
+	}
+	k := r.n(len(s) + 1)
+	return s[:k] + c + s[k:]
+}
+
+// txControlStrings rewrites the request fields of one case / bulk element in place
+func txControlStrings(r *rng, in J, meta J) {
+	if r.p(55) {
+		ref, _ := in["ref"].(string)
+		if ref == "" {
+			ref = "tenant-1order-" + strconv.Itoa(r.n(1000))
+		}
+		in["ref"] = txSprinkle(r, ref)
+	}
+	if meta == nil {
+		return
+	}
+	if r.p(60) { // a value
+		k := r.pick([]string{"memo", "raw", "note", "k"})
+		meta[k] = txSprinkle(r, r.pick([]string{"paid", "0001", "", "x y"}))
+	}
+	if r.p(45) { // a key
+		meta[txSprinkle(r, r.pick([]string{"tag", "k", "order"}))] = r.pick([]string{"v", "", "1"})
+	}
+	if r.p(45) { // two keys that differ only by such a character, with different values
+		k := r.pick([]string{"tag", "k", "a b", ""})
+		meta[k] = "blue"
+		meta[txSprinkle(r, k)] = "red"
+		if r.p(30) {
+			meta[txSprinkle(r, k)] = "green"
+		}
+	}
+}
 
 // ---------------------------------------------------------------- execution
 
